@@ -190,14 +190,12 @@ class C25(Check):
 
     def handle_exc(self, name, r):
         if is_exc(r):
-            if r["exc"] == "VerifAssertFailure" and "is_canonical()" in r.get("what", ""):
-                # the library's own canonical-format assertion (CSRMatrix constructors) fired inside an operation that the
-                # property requires to PRODUCE a canonical matrix: that is this property's violation, observed by the library
-                raise Violation("%s: the CSRMatrix constructor's is_canonical() assertion failed on the arrays this operation "
-                                "produced (%s)" % (name, r["what"]), {"result": r})
             if r["exc"] == "VerifAssertFailure":
-                self.skip("assert_seen")
-            elif r["exc"] == "Dep":
+                # every call this check judges is made inside the routine's precondition, so a library assertion
+                # (e.g. the CSRMatrix constructors' is_canonical() on arrays an operation has just produced) is a violation
+                raise Violation("%s: a library assertion failed on an input inside the routine's precondition (%s)"
+                                % (name, r.get("what", "")), {"result": r})
+            if r["exc"] == "Dep":
                 self.skip("dep")
             else:
                 self.skip("declined:" + r["exc"])
@@ -321,12 +319,11 @@ class C25(Check):
         op("transpose(true)", ["csr_transpose", R(0), True], L.conj(At))
         op("conjugate_transpose", ["csr_conjugate_transpose", R(0)], L.conj(At))
         op("transpose(transpose)", ["csr_transpose", ["csr_transpose", R(0), False], False], A)
-        if r_ == c_:
-            op("conjugate", ["csr_conjugate", R(0)], L.conj(A))
-        else:
+        if r_ != c_ and self.tag_active("csr_conjugate_swaps_dimensions"):
             # known finding: CSRMatrix::conjugate builds its result with swapped dimensions (col_, row_)
-            plan.append(("known_conj", len(stmts), L.conj(A)))
-            stmts.append(["mat_obs", ["csr_conjugate", R(0)]])
+            self.skip("known:csr_conjugate_swaps_dimensions")
+        else:
+            op("conjugate", ["csr_conjugate", R(0)], L.conj(A))
         op("elementwise_mul_matrix", ["csr_emul", R(0), R(rB)], L.emul(A, Bm))
         op("csr_binop_csr_canonical(add)", ["csr_binop", "add", R(0), R(rB)], L.add(A, Bm))
         op("csr_binop_csr_canonical(sub)", ["csr_binop", "sub", R(0), R(rB)], L.sub(A, Bm))
@@ -334,18 +331,18 @@ class C25(Check):
         op("csr_binop_csr_canonical(add self)", ["csr_binop", "add", R(0), R(0)], L.add(A, A))
         op("csr_binop_csr_canonical(sub self)", ["csr_binop", "sub", R(0), R(0)], L.zeros(r_, c_))
         # product: csr_matmat_pass1/2 size their scratch arrays by A.ncols(); wider B overflows them (known finding)
-        if k_ <= c_:
+        if k_ > c_ and self.tag_active("csr_matmat_scratch_sized_by_A_cols"):
+            self.skip("known:csr_matmat_scratch_sized_by_A_cols")
+        else:
             plan.append(("matmat", len(stmts), L.matmul(A, Cm)))
             stmts.append(["mat_obs", ["csr_matmat", R(0), R(rC)]])
-        else:
-            self.skip("known:csr_matmat_scratch_sized_by_A_cols")
         # diagonal: pre-excluded when the library's search would probe outside the row (known finding)
-        if self.diag_probe_safe(r_, c_, stored):
+        if not self.diag_probe_safe(r_, c_, stored) and self.tag_active("csr_diagonal_search_bounds"):
+            self.skip("known:csr_diagonal_search_bounds")
+        else:
             n = min(r_, c_)
             plan.append(("dense", len(stmts), ([[A[i][i]] for i in range(n)], "csr_diagonal")))
             stmts.append(["mat_obs", ["csr_diagonal", R(0)]])
-        else:
-            self.skip("known:csr_diagonal_search_bounds")
         # scaling
         sc = [L.parse(x) for x in case["scale"]]
         rows_s = sc[:r_] + [ONE] * max(0, r_ - len(sc))
@@ -400,14 +397,6 @@ class C25(Check):
                     self.count()
                 else:
                     self.skip("unjudged:unimplemented_returned")
-                continue
-            if kind == "known_conj":
-                self.cls("conjugate_nonsquare")
-                if is_exc(r, "VerifAssertFailure"):
-                    self.skip("known:csr_conjugate_swaps_dimensions")
-                elif not self.handle_exc("conjugate", r):
-                    self.canon("conjugate", r, pay, ctx)
-                    self.count()
                 continue
             name = {"init": "construct", "set": "set", "get": "get", "copy_unchanged": "copy"}.get(kind, kind)
             if kind in ("csr", "dense"):
@@ -524,7 +513,10 @@ class C25(Check):
             raise Violation("%s: duplicate column index inside a row; %s" % (what, info))
         if unsorted_:
             # known finding: pass 2 emits each row in reverse first-touch order and nothing sorts it afterwards
-            self.skip("known:csr_matmat_unsorted_indices")
+            if self.tag_active("csr_matmat_unsorted_indices"):
+                self.skip("known:csr_matmat_unsorted_indices")
+            else:
+                raise Violation("%s: column indices of the product are not sorted (not canonical, get() is wrong); %s" % (what, info))
 
     # ---------------------------------------------------------------- static helpers on raw arrays
     def fam_arrays(self, case):
